@@ -376,3 +376,13 @@ func tmpDir(prefix string) string {
 	}
 	return d
 }
+
+func countPoints(m *sk.Model) int {
+	n := 0
+	for _, fs := range m.S {
+		for _, f := range fs {
+			n += len(f.P)
+		}
+	}
+	return n
+}
